@@ -188,8 +188,6 @@ def scanString : Nat → Text → Text → PR Text
 def takeWhileDigits (t : Text) : Text × Text := (t.takeWhile isDigitC', t.dropWhile isDigitC')
 where isDigitC' (c : Nat) : Bool := 48 ≤ c && c ≤ 57
 
-def decVal (t : Text) : Nat := t.foldl (fun a c => a * 10 + (c - 48)) 0
-
 /-- a number: `-? (0 | [1-9][0-9]*)`; a fraction or exponent makes it a float (unsupported) -/
 def scanNumber (t : Text) : PR Int :=
   let (neg, t1) := match t with
